@@ -96,26 +96,41 @@ def rule_D1(ctx):
             if bad:
                 r.finding(f["path"], inst, where, msg)
     r.floor("character-count sinks in the data crate", sinks, 5)
-    # D1b: char -> u8 `as` casts in data::parsing
-    casts = 0
-    for f in scope:
-        if "::data::parsing::" not in f["path"]:
-            continue
-        n_c = 0
+    # D1b: char -> u8 `as` casts in data::parsing (expected count zero: no floor, the fixture control keeps the rule honest)
+    def d1b_sites(f):
+        out = []
         for n in walk(f["hir"]):
             if n.get("k") == "Cast" and n.get("from_ty") == "char" and n.get("ty") == "u8":
                 inner = peel(n["e"])
-                casts += 1
-                if inner.get("k") == "Lit":
-                    r.examine((f["path"], "lit-cast", casts), False)
-                    continue  # constant ASCII escape like '\n' as u8
-                n_c += 1
-                r.examine((f["path"], "char-as-u8", n_c), True, {"fn": f["path"], "where": loc(n)})
-                r.finding(f["path"], "char-as-u8#%d" % n_c, loc(n), "`char as u8` keeps only the low byte: a character above U+00FF in a byte-list literal denotes a different byte, one above U+007F is not its UTF-8 encoding")
-    r.floor("char->u8 casts examined in data::parsing", casts, 1)
+                out.append((n, inner.get("k") == "Lit"))  # a constant ASCII escape like '\n' as u8 is exact
+        return out
+    casts = 0
+    parsing_fns = 0
+    for f in scope:
+        if "::data::parsing::" not in f["path"]:
+            continue
+        parsing_fns += 1
+        n_c = 0
+        for n, is_lit in d1b_sites(f):
+            casts += 1
+            if is_lit:
+                r.examine((f["path"], "lit-cast", casts), False)
+                continue
+            n_c += 1
+            r.examine((f["path"], "char-as-u8", n_c), True, {"fn": f["path"], "where": loc(n)})
+            r.finding(f["path"], "char-as-u8#%d" % n_c, loc(n), "`char as u8` keeps only the low byte: a character above U+00FF in a byte-list literal denotes a different byte, one above U+007F is not its UTF-8 encoding")
+    r.analysed["char_to_u8_casts_in_data_parsing"] = casts
+    r.floor("functions in data::parsing examined for char->u8 casts", parsing_fns, 2)
+    for f in F.fns_in("gfixture::d1::"):
+        if f["name"] == "ctl_char_as_u8":
+            r.control(f["name"], any(not lit for _n, lit in d1b_sites(f)))
+        elif f["name"] == "ok_char_utf8":
+            r.neg_control(f["name"], not any(not lit for _n, lit in d1b_sites(f)))
     # controls
     for f in F.fns_in("gfixture::d1::"):
         if f["kind"] == "Closure":
+            continue
+        if f["name"] in ("ctl_char_as_u8", "ok_char_utf8"):
             continue
         hit = any(bad for _i, _w, _m, bad in d1_sites(F, f))
         if f["name"].startswith("ctl_"):
